@@ -38,6 +38,12 @@ M = [
     # ---- C04
     ("c04-metadata-rack-version", "C04", "protocol/metadata/metadata.go", r'Rack   string `kafka:"min=v1,max=v8,nullable"`', 'Rack   string `kafka:"min=v2,max=v8,nullable"`', "broker rack encoded from v2 instead of v1"),
     ("c04-joingroup-instance-nullable", "C04", "protocol/joingroup/joingroup.go", r'GroupInstanceID    string            `kafka:"min=v5,max=v5,nullable\|', 'GroupInstanceID    string            `kafka:"min=v5,max=v5|', "v5 group instance id no longer nullable"),
+    # ---- C04, hand-written Conn codec
+    ("c04-conn-join-timeouts-swapped", "C04", "joingroup.go", r"\twb\.writeInt32\(t\.SessionTimeout\)\n\twb\.writeInt32\(t\.RebalanceTimeout\)", "\twb.writeInt32(t.RebalanceTimeout)\n\twb.writeInt32(t.SessionTimeout)", "JoinGroup v1: session and rebalance timeout written in the wrong order"),
+    ("c04-conn-varintlen", "C04,C05", "write.go", r"for u >= 0x80 \{", "for u > 0x80 {", "varIntLen one byte short for values whose zig-zag form is exactly 128 (64-byte key, 65th record ...)"),
+    ("c04-conn-fetch-v10-epoch", "C04", "write.go", r"(func \(wb \*writeBuffer\) writeFetchRequestV10(?:.*\n)*?\twb\.writeInt32\(0\) +//FIXME\n)\twb\.writeInt32\(-1\)", "\\1\twb.writeInt32(0)", "Fetch v10 session epoch 0 instead of -1 (opens a fetch session the client never continues)"),
+    ("c04-conn-size-prefix", "C04", "sizeof.go", r"func sizeofString\(s string\) int32 \{\n\treturn 2 \+ int32\(len\(s\)\)", "func sizeofString(s string) int32 {\n\treturn 2 + int32(len([]rune(s)))", "size arithmetic counts characters instead of bytes: wrong frame size for a non-ASCII client id"),
+    ("c04-conn-retention-default", "C04", "consumergroup.go", r"defaultRetentionTime = -1 \* time\.Millisecond", "defaultRetentionTime = 0 * time.Millisecond", "OffsetCommit retention 0 instead of the broker default -1"),
     # ---- C11
     ("c11-fetch-error-leaves-bytes", "C11", "conn.go", r"\tif errors\.As\(err, &kafkaError\) && remain > 0 \{\n", "\tif errors.As(err, &kafkaError) && remain > 4 {\n", "F2 partly re-introduced: fetch error path leaves up to 4 bytes unread"),
     # ---- C06
